@@ -10,7 +10,7 @@
 (*      prefix splitting, acceptance)                  -> T-FAIL records      *)
 (* and checks that the harness evaluated the symbolic value TLC exported      *)
 (* (ECHO-FAIL = machinery).  One state per observation.                       *)
-EXTENDS Defs
+EXTENDS DefsMore
 Obs == JsonDeserialize(IOEnv.C02OBS)
 VARIABLE i
 Init == i = 0
@@ -66,10 +66,32 @@ ExprP(o) ==
   \* consequence: 1 <expr> converted to the coherent SI unit = scale(expr)  (same-dimension results only)
   /\ (o.c.ok /\ o.c.inrange /\ o.c.eu[1] > k + 2) => Fail("P-FAIL", "expr-convert", [eu |-> o.c.eu, kk |-> k + 2])
 
+\* ---- a sequence of prefixed names resolved in that order in a fresh registry
+OrdP(o) ==
+  LET run == ModelRun(o.t, o.seq, 1, <<>>) IN
+  \A j \in DOMAIN o.steps :
+    LET st == o.steps[j] IN
+    /\ (st.ok /\ ~C02_OrderStep(st)) =>
+          Fail("P-FAIL", IF st.eu[1] <= 2 THEN "order-dimension" ELSE "order-scale", [step |-> j, eu |-> st.eu, kexp |-> PfxExp(o.seq[j])])
+    /\ (st.ok # (run[j].t = o.t /\ run[j].p # 0)) => Fail("T-FAIL", "order-resolves", [step |-> j, model |-> run[j].k, ok |-> st.ok])
+    /\ (st.ok /\ ~st.offsame) => Fail("T-FAIL", "order-offset", [step |-> j])
+
+\* ---- a float exponent through the object API
+PowObsP(o) ==
+  LET q == <<o.q[1], o.q[2]>> IN
+  /\ ~o.ok => Fail("T-FAIL", "pow-raises", [form |-> o.form])
+  /\ (o.ok /\ PowUnreadable(q, o.e)) => Fail("T-FAIL", "pow-exponent-unreadable", [carried |-> q])
+  /\ (o.ok /\ ~PowUnreadable(q, o.e) /\ ~C02_PowExponent(q, o.e)) => Fail("P-FAIL", "pow-exponent", [typed |-> PowP(o.e), carried |-> q, cls |-> PowExps[o.e][3]])
+  /\ (o.ok /\ ~C02_PowDim(o.dim, o.b, q)) => Fail("P-FAIL", "pow-dimension", [carried |-> q, got |-> o.dim])
+  /\ (o.ok /\ ~C02_PowScale(o.eus, o.magu)) => Fail("P-FAIL", "pow-scale", [carried |-> q, eu |-> o.eus, magu |-> o.magu])
+  /\ (o.ok /\ ~C02_PowScale(o.euv, o.magu)) => Fail("P-FAIL", "pow-value", [typed |-> PowP(o.e), eu |-> o.euv])
+
 StepP == i > 0 =>
   LET o == Obs[i] IN
   CASE o.kind = "name" -> NameP(o)
     [] o.kind = "pfx" -> PfxP(o)
     [] o.kind = "conv" -> ConvP(o)
     [] o.kind = "expr" -> ExprP(o)
+    [] o.kind = "ord" -> OrdP(o)
+    [] o.kind = "pow" -> PowObsP(o)
 =============================================================================
